@@ -1447,19 +1447,25 @@ theorem hash_of_unsanitised_spelling_splits_identity (H : String → Nat) (hH : 
   have g2 : (flowStoreOnly.hashed (C16Ident.rawNs cfg0 mUnderscore) ++ flowStoreOnly.hashed mUnderscore.name : String) =
       "nscpu_load" := by decide
   have g3 : ("ns" ++ "cpu_load" : String) = "nscpu_load" := by decide
-  refine ⟨by decide, _, _, rfl, rfl, n1, ?_, ?_, rfl, ?_, ?_⟩
-  · show flowStoreOnly.stored (C16Ident.rawNs cfg0 mPipe) = flowStoreOnly.stored (C16Ident.rawNs cfg0 mUnderscore)
-    rw [s1, s2]
-  · show flowStoreOnly.stored mPipe.name = flowStoreOnly.stored mUnderscore.name
-    rw [n1, n2]
-  · show H (flowStoreOnly.hashed (C16Ident.rawNs cfg0 mPipe) ++ flowStoreOnly.hashed mPipe.name) ≠
-      H (flowStoreOnly.stored (C16Ident.rawNs cfg0 mPipe) ++ flowStoreOnly.stored mPipe.name)
-    rw [g1, s1, n1, g3]
-    exact hH
-  · show H (flowStoreOnly.hashed (C16Ident.rawNs cfg0 mPipe) ++ flowStoreOnly.hashed mPipe.name) ≠
-      H (flowStoreOnly.hashed (C16Ident.rawNs cfg0 mUnderscore) ++ flowStoreOnly.hashed mUnderscore.name)
-    rw [g1, g2]
-    exact hH
+  -- both spellings pass validateMetric and leave the same rewritten metric (closed terms: `decide`)
+  have v1 : validate cfg0 (some mPipe) = .ok ⟨"cpu_load", "ns", 5, [], [⟨"f", 1, .num 1⟩], none⟩ := by decide
+  have v2 : validate cfg0 (some mUnderscore) = .ok ⟨"cpu_load", "ns", 5, [], [⟨"f", 1, .num 1⟩], none⟩ := by decide
+  -- the two stored rows, explicitly: equal but for the name hash
+  let S : Nat → Stored := fun nh => ⟨"cpu_load", "ns", 5, [], [⟨"f", 1, .num 1⟩], none, H "", nh⟩
+  have c1 : C16Ident.convertF flowStoreOnly flowStoreOnly true (insertionSort (less true)) H cfg0 (some mPipe) =
+      .ok (S (H "nscpu|load")) := by
+    simp only [C16Ident.convertF, v1]
+    rw [n1, s1, g1]
+    rfl
+  have c2 : C16Ident.convertF flowStoreOnly flowStoreOnly true (insertionSort (less true)) H cfg0 (some mUnderscore) =
+      .ok (S (H "nscpu_load")) := by
+    simp only [C16Ident.convertF, v2]
+    rw [n2, s2, g2]
+    rfl
+  refine ⟨by decide, S (H "nscpu|load"), S (H "nscpu_load"), c1, c2, rfl, rfl, rfl, rfl, ?_, hH⟩
+  show H "nscpu|load" ≠ H ("ns" ++ "cpu_load")
+  rw [g3]
+  exact hH
 
 /-- the two histogram rule sets differ: a histogram with exactly two buckets is rejected by validateMetric
 (`len(Values) <= 2`) and accepted by RowBuilder.AddCompoundFieldData (`len(values) < 2`) — outside
